@@ -893,6 +893,35 @@ fn fam_observer_stiff(o: &mut Out) {
     }
 }
 
+/// C12: a non-terminal event function added next to a terminal one, its root shortly before the terminal root in the same
+/// step (both index orders, both directions): the run stops where it stopped without it
+fn fam_observer_terminal(o: &mut Out) {
+    let root = std::f64::consts::PI / 3.0;
+    for m in METHODS {
+        for dir in [1.0, -1.0] {
+            for cnt in [1usize, 2] {
+                let mut c = base(m, Problem::new("sho", 0.0), 0.0, dir * 8.0);
+                c.rtol = vec![1e-5];
+                c.atol = vec![1e-8];
+                c.jac = "user".into();
+                if m == "RK4" { c.first_step = Some(0.25); } else { c.max_step = Some(0.5); }
+                let term = EventSpec { kind: "y0-a".into(), a: 0.5, dir: "All".into(), term: cnt };
+                c.events = vec![term.clone()];
+                c.tags = vec![format!("plain+terminal{}", cnt)];
+                let a = o.run(c.clone());
+                let obs = EventSpec { kind: "t-c".into(), a: dir * (root - 1.0e-4), dir: "All".into(), term: 0 };
+                for (order, evs) in [("observer_first", vec![obs.clone(), term.clone()]), ("observer_second", vec![term.clone(), obs.clone()])] {
+                    let mut v = c.clone();
+                    v.events = evs;
+                    v.tags = vec![format!("terminal{}+{}", cnt, order)];
+                    let b = o.run(v);
+                    o.pair("C12", "observer", &a, &b, "a non-terminal event next to a terminal one changes only what is reported");
+                }
+            }
+        }
+    }
+}
+
 /// C12: first_step whose first attempt is rejected (the handler skips outputs up to the pinned one); more than 100 requested times
 fn fam_observer_firststep(o: &mut Out) {
     for m in METHODS {
@@ -1142,6 +1171,20 @@ fn fam_terminal(o: &mut Out, quick: bool, rng: &mut Rng) {
 }
 
 /// C10 / C11: a step budget that is used up exactly by the step in which the terminal event fires
+fn fam_terminal_tinysteps(o: &mut Out) {
+    // a terminal event inside an accepted step that is shorter than the output handler's absolute time tolerance
+    for m in METHODS {
+        for (x0, dir) in [(0.0, 1.0), (1.0, -1.0)] {
+            let hs = 5.0e-13;
+            let mut c = base(m, Problem::new("decay", 1.0), x0, x0 + dir * 40.0 * hs);
+            if m == "RK4" { c.first_step = Some(hs); } else { c.max_step = Some(hs); }
+            c.events = vec![EventSpec { kind: "t-c".into(), a: x0 + dir * 20.4 * hs, dir: "All".into(), term: 1 }];
+            c.tags = vec!["terminal_in_tiny_step".into()];
+            o.run(c);
+        }
+    }
+}
+
 fn fam_terminal_budget(o: &mut Out) {
     for m in METHODS {
         for (x0, xend) in [(0.0, 6.0), (6.0, 0.0)] {
@@ -1197,6 +1240,27 @@ fn fam_terminal_last(o: &mut Out, quick: bool) {
 // ---------------------------------------------------------------------------------------- symmetry
 /// C13: exact symmetries give bit-identical trajectories.
 fn fam_symmetry(o: &mut Out, quick: bool, rng: &mut Rng) {
+    // reflection of a run whose given first_step is rejected (the handler's pinned first output is passed by a later step)
+    for m in ADAPTIVE {
+        for (x0, xend) in [(0.0, 3.0), (3.0, 0.0)] {
+            let mut c = base(m, Problem::new("sho", 0.0), x0, xend);
+            c.rtol = vec![1e-8];
+            c.atol = vec![1e-10];
+            c.jac = "user".into();
+            c.first_step = Some((xend - x0) / 3.0);
+            c.tags = vec!["reference+first_step_rejected".into()];
+            let a = o.run(c.clone());
+            let mut v = c.clone();
+            v.problem.reflect = true;
+            v.x0 = -x0;
+            v.xend = -xend;
+            v.first_step = c.first_step.map(|h| -h);
+            v.map = "reflect".into();
+            v.tags = vec!["reflect+first_step_rejected".into()];
+            let b = o.run(v);
+            o.pair("C13", "equal", &a, &b, "time reflection with a rejected first_step");
+        }
+    }
     let ncase = if quick { 12 } else { 120 };
     let probs = vec![Problem::new("lin2", 0.0), Problem::new("decay", 1.0), Problem::new("vdp", 5.0), Problem::new("lin3", 0.0), Problem::new("sho", 0.0), Problem::new("logistic", 0.0)];
     // reflection with events, incl. two event functions crossing within one (large) step and one of them terminal
@@ -1464,6 +1528,37 @@ fn fam_storage(o: &mut Out, quick: bool, rng: &mut Rng) {
                 // agreement with y' = M^-1 f integrated directly)
                 let _ = o.run(v);
             }
+        }
+    }
+}
+
+/// C15: the default finite-difference Jacobian and the analytic one give answers that agree within the tolerance - also on
+/// states of large magnitude and either sign (fact: both succeed within the step budget, final states agree to 1e3 (rtol + atol))
+fn fam_storage_jacsource(o: &mut Out) {
+    for m in ["RADAU", "BDF"] {
+        for (p, xend, y0) in [(Problem::new("relaxc", 1.0e6), 1.0e-3, None), (Problem::new("relaxc", 1.0e7), 1.0e-3, Some(vec![-4.0e9 - 2.0e8])),
+                              (Problem::new("vdp", 50.0), 2.0, Some(vec![-2.0, 0.0])), (Problem::new("robertson", 0.0), 1.0, None)] {
+            let mut c = base(m, p, 0.0, xend);
+            if let Some(v) = y0 { c.y0 = v; }
+            c.rtol = vec![1e-5];
+            c.atol = vec![1e-7];
+            c.max_steps = Some(20_000);
+            c.jac = "user".into();
+            c.tags = vec!["jac_user".into()];
+            let a = o.run(c.clone());
+            let mut v = c.clone();
+            v.jac = "fd".into();
+            v.tags = vec!["jac_default_fd".into()];
+            let b = o.run(v);
+            let ok = match (&a.sol, &b.sol) {
+                (Some(sa), Some(sb)) => sa.status == ivp::prelude::Status::Success && sb.status == ivp::prelude::Status::Success
+                    && match (sa.y.last(), sb.y.last()) {
+                        (Some(ya), Some(yb)) => ya.iter().zip(yb.iter()).all(|(u, w)| (u - w).abs() <= 1.0e3 * (1e-5 + 1e-7) * (1.0 + u.abs().max(w.abs()))),
+                        _ => false,
+                    },
+                _ => false,
+            };
+            o.pair_f("C15", "grid_values", &a, &b, "fact: analytic and default finite-difference Jacobian both succeed and agree within 1e3 (rtol + atol)", ok);
         }
     }
 }
@@ -1778,6 +1873,37 @@ fn fam_events_tinysteps(o: &mut Out) {
     }
 }
 
+/// C09: a counted (terminal_count >= 2) event whose non-final occurrence shares its step with a later event of another
+/// function; more event functions than states
+fn fam_events_counted(o: &mut Out) {
+    let root = std::f64::consts::PI / 3.0;
+    for m in METHODS {
+        for dir in [1.0, -1.0] {
+            for cnt in [2usize, 3] {
+                let mut c = base(m, Problem::new("sho", 0.0), 0.0, dir * 8.0);
+                c.rtol = vec![1e-5];
+                c.atol = vec![1e-8];
+                c.jac = "user".into();
+                if m == "RK4" { c.first_step = Some(0.25); } else { c.max_step = Some(0.5); }
+                c.events = vec![EventSpec { kind: "y0-a".into(), a: 0.5, dir: "All".into(), term: cnt },
+                                EventSpec { kind: "t-c".into(), a: dir * (root + 1.0e-4), dir: "All".into(), term: 0 },
+                                EventSpec { kind: "t-c".into(), a: dir * (5.0 * root + 2.0e-3), dir: "All".into(), term: 0 }];
+                c.tags = vec![format!("counted_terminal{}+later_event_same_step", cnt)];
+                o.run(c);
+            }
+            let mut c = base(m, Problem::new("decay", 1.0), 0.0, dir * 2.0);
+            if dir < 0.0 { c.y0 = vec![0.2]; }
+            if m == "RK4" { c.first_step = Some(0.05); }
+            let (a1, a2) = if dir > 0.0 { (0.5, 0.25) } else { (0.5, 1.0) };
+            c.events = vec![EventSpec { kind: "y0-a".into(), a: a1, dir: "All".into(), term: 0 },
+                            EventSpec { kind: "t-c".into(), a: dir * 1.3, dir: "All".into(), term: 0 },
+                            EventSpec { kind: "y0-a".into(), a: a2, dir: "All".into(), term: 0 }];
+            c.tags = vec!["more_events_than_states".into()];
+            o.run(c);
+        }
+    }
+}
+
 /// C09: event values that decay to the subnormal range keep their strict sign: no crossing, no event
 fn fam_events_tiny(o: &mut Out) {
     for m in ["RK4", "RK23", "DOPRI5", "BDF"] {
@@ -1842,13 +1968,13 @@ fn main() {
             "core" => fam_core(&mut o, quick, &mut rng),
             "adversarial" => fam_adversarial(&mut o, quick, &mut rng),
             "lowlevel" => fam_lowlevel(&mut o, quick, &mut rng),
-            "observer" => { fam_observer(&mut o, quick, &mut rng); fam_observer_wide(&mut o, quick); fam_observer_firststep(&mut o); fam_observer_long(&mut o, quick); fam_observer_stiff(&mut o); }
+            "observer" => { fam_observer(&mut o, quick, &mut rng); fam_observer_wide(&mut o, quick); fam_observer_firststep(&mut o); fam_observer_long(&mut o, quick); fam_observer_stiff(&mut o); fam_observer_terminal(&mut o); }
             "budget" => { fam_budget(&mut o, quick, &mut rng); fam_budget_early_rejections(&mut o, quick); fam_budget_radau(&mut o, quick); fam_budget_singular(&mut o); }
-            "terminal" => { fam_terminal(&mut o, quick, &mut rng); fam_terminal_last(&mut o, quick); fam_terminal_sweep(&mut o, quick); fam_terminal_budget(&mut o); }
+            "terminal" => { fam_terminal(&mut o, quick, &mut rng); fam_terminal_last(&mut o, quick); fam_terminal_sweep(&mut o, quick); fam_terminal_budget(&mut o); fam_terminal_tinysteps(&mut o); }
             "symmetry" => fam_symmetry(&mut o, quick, &mut rng),
-            "storage" => { fam_storage(&mut o, quick, &mut rng); fam_storage_mass(&mut o, quick); }
+            "storage" => { fam_storage(&mut o, quick, &mut rng); fam_storage_mass(&mut o, quick); fam_storage_jacsource(&mut o); }
             "teval" => { fam_teval(&mut o, quick, &mut rng); fam_teval_zero(&mut o); fam_teval_landing(&mut o); fam_teval_offset(&mut o); }
-            "events" => { fam_events(&mut o, quick, &mut rng); fam_events_small(&mut o); fam_events_codes(&mut o); fam_events_tiny(&mut o); fam_events_zero(&mut o); fam_events_tinysteps(&mut o); }
+            "events" => { fam_events(&mut o, quick, &mut rng); fam_events_small(&mut o); fam_events_codes(&mut o); fam_events_tiny(&mut o); fam_events_zero(&mut o); fam_events_tinysteps(&mut o); fam_events_counted(&mut o); }
             _ => { eprintln!("unknown family {}", fam); std::process::exit(2); }
         }
     }
